@@ -133,6 +133,18 @@ impl<'a, 'b> PathArg for &'a &'b PathBuf {
     fn as_ref(&self) -> (r: &PathBuf) { unimplemented!() }
 }
 
+// a string literal where a path is expected (`x.trim_prefix("/")`): its components are whatever the literal parses to
+pub uninterp spec fn lit_comps(s: Seq<char>) -> Comps;
+impl PathArg for &'static str {
+    open spec fn pc(&self) -> Comps { lit_comps((*self)@) }
+    open spec fn pv(&self) -> PathV { arbitrary() }
+    open spec fn pok(&self) -> bool { false }
+    #[verifier::external_body]
+    fn into(self) -> (r: PathBuf) { unimplemented!() }
+    #[verifier::external_body]
+    fn as_ref(&self) -> (r: &PathBuf) { unimplemented!() }
+}
+
 // exec view of std::path::Component<'_> and the iteration / push operations used by Memfs::_mkdir_m
 #[verifier::external_body]
 pub struct Component { x: u8 }
